@@ -28,3 +28,67 @@ package httpgrpc
 //@   assert_call[C14] http.Error : only_cancel_gets_499: arg2 == 499 ==> (status_code(st) == 1 || status_code(st) == 4) && ctx_err(ctx) != nil
 //@   assert_call[C14] http.Error : done_request_gets_499: (status_code(st) == 1 || status_code(st) == 4) && old(ctx_err(ctx)) != nil ==> arg2 == 499
 //@   modifies everything
+
+// ---- C09: deadlines across HTTP (contextFromHeaders, headersFromContext) ----
+//
+// hdr1(h, k): what http.Header.Get(k) returns.
+//@ define hdr1(h, k) = ite(len(h[canon_key(k)]) > 0, h[canon_key(k)][0], "")
+//@ define grpc_timeout(h) = hdr1(h, "GRPC-Timeout")
+//@ define timeout_digits(t) = substr(t, 0, len(t) - 1)
+//@ define timeout_unit(c) = ite(c == 'H', 3600000000000, ite(c == 'M', 60000000000, ite(c == 'S', 1000000000, ite(c == 'm', 1000000, ite(c == 'u', 1000, ite(c == 'n', 1, 0))))))
+//@ define sat_mul(v, u) = ite(v * u > 9223372036854775807, 9223372036854775807, v * u)
+//
+//@ func contextFromHeaders
+//@   ensures[C09] no_header_no_timeout: grpc_timeout(h) == "" ==> calls(context.WithTimeout) == 0
+//@   ensures[C09] malformed_is_ignored: grpc_timeout(h) != "" && (!parse_ok(timeout_digits(grpc_timeout(h)), 64) || timeout_unit(byteat(grpc_timeout(h), len(grpc_timeout(h)) - 1)) == 0) ==> calls(context.WithTimeout) == 0
+//@   ensures[C09] valid_gives_one_timeout: result2 == nil && grpc_timeout(h) != "" && parse_ok(timeout_digits(grpc_timeout(h)), 64) && timeout_unit(byteat(grpc_timeout(h), len(grpc_timeout(h)) - 1)) != 0 ==> calls(context.WithTimeout) == 1
+//@   assert_call[C09] context.WithTimeout : saturating: parse_val(timeout_digits(grpc_timeout(h))) >= 0 ==> arg1 == sat_mul(parse_val(timeout_digits(grpc_timeout(h))), timeout_unit(byteat(grpc_timeout(h), len(grpc_timeout(h)) - 1)))
+//@   assert_call[C09] context.WithTimeout : only_for_valid: parse_ok(timeout_digits(grpc_timeout(h)), 64) && timeout_unit(byteat(grpc_timeout(h), len(grpc_timeout(h)) - 1)) != 0
+//@   modifies everything
+//
+// headersFromContext: with d = time.Until(deadline) the header is "<M>m" with
+// M = max(1, d / 1ms) (Go truncation); no deadline => no GRPC-Timeout header.
+//@ define millis_of(d) = ite(d / 1000000 <= 0, 1, d / 1000000)
+//@ func headersFromContext
+//@   ensures[C09] no_deadline_no_header: !lastresult("context.Context.Deadline", 1) ==> !called("(http.Header).Set")
+//@   ensures[C09] deadline_sets_header_once: lastresult("context.Context.Deadline", 1) ==> calls("(http.Header).Set") == 1
+//@   assert_call[C09] (http.Header).Set : key: arg1 == "GRPC-Timeout"
+//@   assert_call[C09] (http.Header).Set : into_result: arg0 == h
+//@   assert_call[C09] (http.Header).Set : value: arg2 == fmt_dm(millis_of(lastresult("time.Until")))
+//@   assert_call[C09] fmt.Sprintf : never_later_than_caller: millis_of(lastresult("time.Until")) >= 1 && (lastresult("time.Until") >= 1000000 ==> millis_of(lastresult("time.Until")) * 1000000 <= lastresult("time.Until") && lastresult("time.Until") - millis_of(lastresult("time.Until")) * 1000000 < 1000000)
+//@   ensures[C09,C03] result_is_the_header_map: result == h
+//@   modifies everything
+
+// ---- C07 / C01: framing (io.go) ----
+//
+//@ func readSizePreface
+//@   ensures[C07,C01] whole_prefix: old(rd_avail(in)) >= 4 ==> result1 == nil && result0 == be32(in, old(rd_pos(in))) && rd_pos(in) == old(rd_pos(in)) + 4
+//@   ensures[C07,C08] clean_end: old(rd_avail(in)) <= 0 ==> result1 == rd_end_err(in) && rd_pos(in) == old(rd_pos(in))
+//@   ensures[C07] partial_prefix_is_error: 0 < old(rd_avail(in)) && old(rd_avail(in)) < 4 ==> result1 == short_read_err(in)
+//@   ensures[C07] never_fabricates: result1 != nil ==> result0 == 0
+//@   modifies rd_pos(in)
+//
+//@ func readProtoMessage
+//@   alloc_bound[C07] maxMessageSize
+//@   ensures[C07] bad_size_rejected: (sz < 0 || sz > maxMessageSize) ==> result != nil && rd_pos(in) == old(rd_pos(in)) && !called("io.ReadAtLeast") && !called("encoding.Codec.Unmarshal")
+//@   ensures[C07,C01] success_consumes_exactly_the_frame: result == nil ==> 0 <= sz && sz <= maxMessageSize && rd_pos(in) == old(rd_pos(in)) + sz && calls("encoding.Codec.Unmarshal") == 1
+//@   ensures[C07] short_payload_is_error: 0 <= sz && sz <= maxMessageSize && old(rd_avail(in)) < sz ==> result != nil && !called("encoding.Codec.Unmarshal")
+//@   ensures[C07] short_payload_error_kind: 0 < sz && sz <= maxMessageSize && old(rd_avail(in)) < sz ==> (old(rd_avail(in)) <= 0 ==> result == rd_end_err(in)) && (old(rd_avail(in)) > 0 ==> result == short_read_err(in))
+//@   assert_call[C07,C01] encoding.Codec.Unmarshal : exact_payload: len(arg1) == sz && (forall j int :: 0 <= j && j < sz ==> arg1[j] == rd_at(in, old(rd_pos(in)) + j))
+//@   assert_call[C07,C01] encoding.Codec.Unmarshal : into_destination: arg0 == codec && arg2 == m
+//@   assert_call[C07] io.ReadAtLeast : reads_from_in: arg0 == in
+//@   modifies rd_pos(in), external
+
+// ---- serverStream.RecvMsg: C07 (truncation, bad sizes), C08 (single request), C01 ----
+//
+//@ define sbody(s) = s.r.Body
+//@ func (*serverStream).RecvMsg
+//@   ensures[C08] single_request_second_recv: !old(s.respStream) && old(s.recvd) > 0 ==> result == io.EOF && rd_pos(sbody(s)) == old(rd_pos(sbody(s))) && !called("readSizePreface")
+//@   ensures[C08,C01] counts_attempts: !(!old(s.respStream) && old(s.recvd) > 0) && old(s.recvd) < 9223372036854775807 ==> s.recvd == old(s.recvd) + 1
+//@   ensures[C07,C01] success_is_one_whole_frame: result == nil ==> old(rd_avail(sbody(s))) >= 4 && be32(sbody(s), old(rd_pos(sbody(s)))) >= 0 && be32(sbody(s), old(rd_pos(sbody(s)))) <= maxMessageSize && old(rd_avail(sbody(s))) >= 4 + be32(sbody(s), old(rd_pos(sbody(s))))
+//@   ensures[C07,C01] success_advances_past_the_frame: result == nil && old(s.respStream) ==> rd_pos(sbody(s)) == old(rd_pos(sbody(s))) + 4 + be32(sbody(s), old(rd_pos(sbody(s))))
+//@   ensures[C07] truncated_frame_is_not_eof: old(s.respStream) && old(rd_avail(sbody(s))) > 0 && (old(rd_avail(sbody(s))) < 4 || old(rd_avail(sbody(s))) < 4 + be32(sbody(s), old(rd_pos(sbody(s))))) ==> result != nil && (rd_end_err(sbody(s)) == io.EOF ==> result != io.EOF)
+//@   ensures[C07] negative_or_huge_size_rejected: old(rd_avail(sbody(s))) >= 4 && (be32(sbody(s), old(rd_pos(sbody(s)))) < 0 || be32(sbody(s), old(rd_pos(sbody(s)))) > maxMessageSize) && !(!old(s.respStream) && old(s.recvd) > 0) ==> result != nil
+//@   ensures[C08] single_request_needs_clean_end: result == nil && !old(s.respStream) ==> rd_end_err(sbody(s)) == io.EOF && rd_pos(sbody(s)) == rd_tot(sbody(s))
+//@   assert_call[C01,C07] readProtoMessage : decodes_into_m: arg0 == sbody(s) && arg1 == s.codec && arg3 == m
+//@   modifies s.recvd, rd_pos(sbody(s)), external
